@@ -220,6 +220,8 @@ pub enum ClientOp {
     Stream { token: u64, base: String },
 }
 
+static CANCELLED_NEXTS: std::sync::atomic::AtomicU64 = std::sync::atomic::AtomicU64::new(0);
+
 async fn run_stream(ldap: &mut Ldap, base: &str) -> Outcome {
     let fut = async {
         let mut st = match ldap.streaming_search(base, Scope::Subtree, "(objectClass=*)", vec!["*"]).await {
@@ -227,7 +229,25 @@ async fn run_stream(ldap: &mut Ldap, base: &str) -> Outcome {
             Err(e) => return Outcome::Err(world::err_class(&e).into(), e.to_string()),
         };
         let mut items: Vec<ItemOut> = vec![];
+        // now and then a next() that finds nothing queued is given up at once (its future polled once
+        // and dropped, as a select! whose other branch wins does) and then repeated: the Search still
+        // sees every one of its responses
+        let mut h = fnv(base.as_bytes());
         loop {
+            h = h.wrapping_mul(0x9e37_79b9_7f4a_7c15).rotate_left(17) ^ 0x5bd1_e995;
+            if h % 4 == 0 {
+                match tokio::time::timeout(std::time::Duration::ZERO, st.next()).await {
+                    Err(_) => {
+                        CANCELLED_NEXTS.fetch_add(1, SeqCst);
+                    }
+                    Ok(Ok(Some(e))) => {
+                        items.push(item_out(&e));
+                        continue;
+                    }
+                    Ok(Ok(None)) => break,
+                    Ok(Err(e)) => return Outcome::Err(world::err_class(&e).into(), e.to_string()),
+                }
+            }
             match st.next().await {
                 Ok(Some(e)) => items.push(item_out(&e)),
                 Ok(None) => break,
@@ -508,9 +528,15 @@ pub fn routing_threads(ctx: &Ctx) -> Report {
     par_cases(&c2, "routing_threads", n, ctx.secs(20, 600), |i, rng, rep| run_case_on(i, rng, rep, MuxOpts { nobody: true, hostile_ids: false, wraps: false }, "routing_threads", false, true))
 }
 
+fn note_cancelled(rep: &mut Report) {
+    rep.count("pending_next_calls_given_up_and_repeated(process-wide)", CANCELLED_NEXTS.swap(0, SeqCst));
+}
+
 pub fn routing(ctx: &Ctx) -> Report {
     let n = ctx.n(40_000, 50_000_000);
-    par_cases(ctx, "routing", n, ctx.secs(30, 700), |i, rng, rep| run_case(i, rng, rep, MuxOpts { nobody: true, hostile_ids: false, wraps: false }, "routing", false))
+    let mut rep = par_cases(ctx, "routing", n, ctx.secs(30, 700), |i, rng, rep| run_case(i, rng, rep, MuxOpts { nobody: true, hostile_ids: false, wraps: false }, "routing", false));
+    note_cancelled(&mut rep);
+    rep
 }
 
 /// Responses whose INTEGER message ID lies outside 0..2^31-1 and aliases an outstanding ID
@@ -1148,7 +1174,7 @@ pub fn starttls_strays(ctx: &Ctx) -> Report {
             })
             .collect();
         let rc = *rng.pick(&codes);
-        let refusal = Refusal { strays: strays.clone(), res: Res::code(rc, &format!("t:starttls:{}", r)), name: None, split: rng.bool() };
+        let refusal = Refusal { strays: strays.clone(), res: Res::code(rc, &format!("t:starttls:{}", r)), name: None, split: rng.bool(), raw_answer: None };
         let replay = json!({"lane":"starttls_strays","rep":r,"strays":format!("{:?}", strays),"rc":rc});
         if hung && !strays.is_empty() {
             continue;
